@@ -10,6 +10,7 @@ import (
 	"strings"
 	"sync"
 	"testing"
+	"time"
 
 	"github.com/256dpi/gomqtt/packet"
 	"github.com/256dpi/gomqtt/session"
@@ -54,6 +55,7 @@ type scenario struct {
 	Ack    bh.AckMode
 	Hold   bool // late acknowledgements are held back until a "release" item
 	PubErr int  // the PubErr-th Backend.Publish call fails (0 = none)
+	Limit  int  // ClientParallelPublishes (0 = the default of 10); token timeout 4 s then
 }
 
 func (s scenario) String() string {
@@ -63,6 +65,9 @@ func (s scenario) String() string {
 	}
 	if s.PubErr > 0 {
 		f += fmt.Sprintf(" | Backend.Publish call #%d refused", s.PubErr)
+	}
+	if s.Limit > 0 {
+		f += fmt.Sprintf(" | %d publish token(s)", s.Limit)
 	}
 	return fmt.Sprintf("%v | %s | ack=%s", s.Script, f, []string{"sync", "late", "never"}[s.Ack])
 }
@@ -79,6 +84,10 @@ func run(r *h.Run, sc scenario, judge bool) result {
 	var res result
 	b := bh.NewBroker()
 	b.Mon.AckMode = sc.Ack
+	if sc.Limit > 0 {
+		b.Mon.Inner.ClientParallelPublishes = sc.Limit
+		b.Mon.Inner.ClientTokenTimeout = 4 * time.Second
+	}
 	if sc.PubErr > 0 {
 		b.Mon.AddFault(bh.HookFault{Hook: "Publish", K: sc.PubErr, Before: true})
 	}
@@ -273,6 +282,15 @@ func run(r *h.Run, sc scenario, judge bool) result {
 
 	// ------------------------------------------------------------ oracles
 	ev := b.Log.Events()
+	// O0: the scripted publisher is protocol-conformant and never needs more
+	// publish tokens than there are packet ids in play: the broker has no reason
+	// to end one of its connections by itself (token timeout, "unexpected packet")
+	for _, e := range ev {
+		if e.Kind == "log:client error" && strings.HasPrefix(e.Who, "pub#") {
+			fail("publisher-killed-by-broker", fmt.Sprintf("the broker closed connection %s of a well-behaved publisher: %s", e.Who, e.Note))
+			break
+		}
+	}
 	// O1/O2: acknowledgements only after the backend's ack was invoked.
 	// Per packet id a three-state receiver model driven by what the broker
 	// reports as received: none -> stored (PUBLISH) -> pending (PUBREL, handed
@@ -513,7 +531,7 @@ func interesting(sc []item) bool {
 func TestCheck(t *testing.T) {
 	r := h.New("C07", "fault_enumeration")
 	depth := r.Pick(3, 4)
-	r.Rule(fmt.Sprintf("all publisher scripts of length <= %d over {PUBLISH q1(1), PUBLISH q2(1), PUBLISH q2(1,dup), PUBREL(1), PUBLISH q2(2), PUBREL(2), drop+resume} containing a QoS>0 publish, each first run without faults to count the packets the broker sends/receives per connection, then re-run with every single fault position (connection c, k-th Send or Receive, before/after; longer scripts take every 2nd or 3rd position with an offset that moves with the script index) x backend acknowledgement mode {sync, late from another goroutine, never}; after the script a completion phase retransmits PUBREL for every id with PUBREC but no PUBCOMP (as a client would) and a SUBSCRIBE fence through the ack queue closes the run. Non-trivial = runs in which a QoS>0 publish reached the backend; distinct by (script, fault, ack mode)", depth))
+	r.Rule(fmt.Sprintf("all publisher scripts of length <= %d over {PUBLISH q1(1), PUBLISH q2(1), PUBLISH q2(1,dup), PUBREL(1), PUBLISH q2(2), PUBREL(2), drop+resume} containing a QoS>0 publish, each first run without faults to count the packets the broker sends/receives per connection, then re-run with every single fault position (connection c, k-th Send or Receive, before/after; longer scripts take every 2nd or 3rd position with an offset that moves with the script index) x backend acknowledgement mode {sync, late from another goroutine, never}; every script without a repeated QoS 2 PUBLISH per connection also runs with as few publish tokens as it has QoS 2 ids (token timeout 4 s); after the script a completion phase retransmits PUBREL for every id with PUBREC but no PUBCOMP (as a client would) and a SUBSCRIBE fence through the ack queue closes the run. Non-trivial = runs in which a QoS>0 publish reached the backend; distinct by (script, fault, ack mode)", depth))
 	r.Assume("what the broker 'received' is taken from its own Log(PacketReceived) report")
 	r.Assume("exactly-once is judged for acknowledged hand-overs (sync/late modes); with a backend that never acknowledges only the absence of PUBACK/PUBCOMP is judged")
 	all := scripts(depth)
@@ -617,6 +635,53 @@ func TestCheck(t *testing.T) {
 			cmu.Unlock()
 		}
 	})
+	// few publish tokens: as many as there are QoS 2 packet ids in the script, plus
+	// one if it has QoS 1 publishes (a publisher needs no more: a token is bound
+	// from PUBLISH to PUBCOMP / PUBACK). Scripts
+	// that repeat a QoS 2 PUBLISH of one id on the same connection are left out
+	// (each repetition binds another token there). Fault-free runs, sync acks.
+	var nlim int64
+	h.Parallel(len(list), 16, func(i int) {
+		sc := list[i]
+		ids := map[packet.ID]bool{}
+		seg := map[packet.ID]bool{}
+		ok := true
+		for _, it := range sc {
+			switch it.Kind {
+			case "drop":
+				seg = map[packet.ID]bool{}
+			case "q2":
+				if seg[it.ID] {
+					ok = false
+				}
+				seg[it.ID] = true
+				ids[it.ID] = true
+			}
+		}
+		if !ok || len(ids) == 0 {
+			return
+		}
+		limit := len(ids)
+		for _, it := range sc {
+			if it.Kind == "q1" {
+				limit = len(ids) + 1 // a QoS 1 publish binds a token until its PUBACK is out
+				break
+			}
+		}
+		s5 := scenario{Script: sc, Ack: bh.AckSync, Limit: limit}
+		r.Journal("C07 %v", s5)
+		res5 := run(r, s5, true)
+		r.Eval()
+		if res5.inconclusive != "" {
+			r.Inconclusive(fmt.Sprintf("%v: %s", s5, res5.inconclusive))
+			return
+		}
+		r.NonTrivial(s5.String())
+		cmu.Lock()
+		nlim++
+		cmu.Unlock()
+	})
+	r.Count("limited_token_runs", nlim)
 	// dedicated: the late acknowledgement is still outstanding when the PUBREL is
 	// retransmitted on the resumed session (deterministic by holding the ack)
 	for _, sc := range [][]item{
